@@ -103,6 +103,14 @@ impl Check for C15 {
         let lang = if r.chance(1, 3) { "tr" } else { "en" };
         let mut dec = ",".to_string();
         let mut events = Vec::new();
+        if r.chance(1, 6) {
+            // around New Year under a non-UTC default zone: the year shown/elided and the default year read
+            // back must agree although the zone's year and the UTC year differ for some hours
+            let y = utc_date(t).0.min(9997);
+            t = crate::gen::clocks::clamp_instant((crate::clock::days_from_civil(y + 1, 1, 1) as i128 * 86400 + r.range(-14 * 3600, 14 * 3600) as i128) * NS);
+            let tz = { let h = 1 + r.below(14); format!("GMT{}{}", if r.chance(1, 2) { "+" } else { "-" }, h.min(12)) };
+            events.push(Event { actor: ADMIN, op: Op::Admin(AdminOp::SetTimezone { tz }), clock: ClockScript::Frozen { t } });
+        }
         for _ in 0..n {
             t = advance(&mut r, t);
             let clock = ClockScript::Frozen { t };
@@ -111,8 +119,10 @@ impl Check for C15 {
                     0 | 1 => {
                         let (d, th) = *r.pick(&[(",", "."), (".", ","), (".", ""), (",", "")]);
                         dec = d.to_string();
-                        events.push(Event { actor: ADMIN, op: Op::Admin(AdminOp::SetDecimalSep { s: d.into() }), clock: clock.clone() });
-                        events.push(Event { actor: ADMIN, op: Op::Admin(AdminOp::SetThousandSep { s: th.into() }), clock });
+                        // the two setters in either order
+                        let a = Event { actor: ADMIN, op: Op::Admin(AdminOp::SetDecimalSep { s: d.into() }), clock: clock.clone() };
+                        let b = Event { actor: ADMIN, op: Op::Admin(AdminOp::SetThousandSep { s: th.into() }), clock };
+                        if r.chance(1, 2) { events.push(a); events.push(b); } else { events.push(b); events.push(a); }
                     }
                     2 => events.push(Event { actor: ADMIN, op: Op::Admin(AdminOp::SetNumberCfg { digits: r.below(10) as u8, remove_zero: r.chance(1, 2), rounding: r.chance(3, 4) }), clock }),
                     3 => events.push(Event { actor: ADMIN, op: Op::Admin(AdminOp::SetPercentCfg { digits: r.below(10) as u8, remove_zero: r.chance(1, 2), rounding: r.chance(3, 4) }), clock }),
